@@ -80,6 +80,7 @@ def main(argv=None) -> int:
                 st["seeded_and_benign_corpus"] = {"summary": f"not run: {type(e).__name__}: {e}"[:200]}
             try:
                 st["operator_mutants"] = automut.run_for(prop, program, per_anchor=60)
+                st["operator_mutants"].pop("_all_survivors", None)
             except Exception as e:
                 st["operator_mutants"] = {"summary": f"not run: {type(e).__name__}: {e}"[:200]}
     except AnalysisError as e:
